@@ -547,6 +547,23 @@ def aggcopy_cases(base_id=600000):
                 ss.append(A.host("emit", shape[i], tag + i, [{"k": "field", "e": src, "f": "f%d" % i}]))
             res = A.binop("eq", shape[last], {"k": "field", "e": src, "f": "f%d" % last}, A.host("in", shape[last], 2 * n, []))
             prog = {"types": [rdecl, wdecl], "fns": {"mk": mk, "pass": passf, "main": {"ps": [], "pts": [], "rt": "bool", "b": A.block(ss, res)}}}
+            if form == "let_pass":
+                # the same aggregate as a script constant (and wrapped in a bigger constant): fields read directly off
+                # the constant, also nested, from main and from a helper
+                kvals = [A.ilit(shape[i], (min(A.ty_max(shape[i]), 2 ** 63 - 1) - 5 * i) if i % 2 == 0 else 11 * (i + 1)) for i in range(n)]   # the parser refuses integer literals above i64::MAX
+                krec = {"k": "rec", "name": rname, "fs": [["f%d" % i, kvals[i]] for i in range(n)]}
+                kw = {"k": "rec", "name": wname, "fs": [["h", A.ilit("u8", 7)], ["g", {"k": "kconst", "n": "KG", "ty": rty}], ["t", A.ilit("u16", 9)]]}
+                consts = [{"n": "KW", "ty": wty, "e": kw, "late": False}, {"n": "KG", "ty": rty, "e": krec, "late": True}]
+                kss = []
+                for i in range(n):
+                    kss.append(A.host("emit", shape[i], 70 + i, [{"k": "field", "e": {"k": "kconst", "n": "KG", "ty": rty}, "f": "f%d" % i}]))
+                    kss.append(A.host("emit", shape[i], 80 + i, [{"k": "field", "e": {"k": "field", "e": {"k": "kconst", "n": "KW", "ty": wty}, "f": "g"}, "f": "f%d" % i}]))
+                helper = {"ps": [], "pts": [], "rt": shape[last], "b": A.block([], {"k": "field", "e": {"k": "kconst", "n": "KG", "ty": rty}, "f": "f%d" % last})}
+                kres = A.binop("eq", shape[last], {"k": "call", "f": "hk", "args": []}, A.host("in", shape[last], 0, []))
+                kprog = {"types": [rdecl, wdecl], "consts": consts,
+                         "fns": {"hk": helper, "main": {"ps": [], "pts": [], "rt": "bool", "b": A.block(kss, kres)}}}
+                cid += 1
+                cases.append(_case(cid, kprog, "bool", [[{"ty": shape[last], "v": kvals[last]["v"]}], [{"ty": shape[last], "v": A.int_bytes(shape[last], 1)}]]))
             runs = []
             for k in range(2):
                 vals = [{"ty": shape[i], "v": A.int_bytes(shape[i], (A.ty_max(shape[i]) - 3 * i - k) if (i + k) % 2 == 0 else (17 * (i + 1) + k))} for i in range(n)]
